@@ -373,6 +373,84 @@ def rule_u6(repo, col):
     col.floor("U6.disjunct_cases", n, 4)
 
 
+def rule_u7(repo, col):
+    """to_prolog: a deterministic query / evidence atom is re-defined in the exported text with its own truth value (scenario table over node value x negated name x observed
+    polarity): the POSITIVE atom is written as a fact exactly when (node is TRUE) != (name is negated), as `atom :- fail.` otherwise; an evidence line carries the observed polarity"""
+    from ..astutil import fold_text
+
+    f = repo.func("problog.formula", "LogicFormula.to_prolog")
+    m = f.module
+    loops = [n for n in f.node.body if isinstance(n, ast.For) and isinstance(n.target, ast.Tuple)]
+    n = 0
+    seen_kinds = set()
+    for lp in loops:
+        it = norm(lp.iter)
+        names = [norm(e_) for e_ in lp.target.elts]
+        if it == "self.queries()" and len(names) == 2:
+            kind = "query"
+        elif it == "self.evidence_all()" and len(names) == 3:
+            kind = "evidence"
+        elif it == "self.evidence()" and len(names) == 2:
+            defines = [c for c in ast.walk(lp) if isinstance(c, ast.Call) and norm(c.func) == "lines.append" and c.args and "evidence(" not in norm(c.args[0])]
+            seen_kinds.add("evidence")
+            n += 1
+            col.decide("U7", m, lp, not defines, "the evidence loop over evidence() defines no atoms",
+                       "to_prolog re-defines deterministic evidence atoms inside a loop over self.evidence(), whose keys are already negated for negative evidence: a TRUE key there means "
+                       "'the observation holds', not 'the atom is true', so for `a :- fail. evidence(\\+a).` the export contains `a.` and `evidence(a).` and the re-read program gives P(a) = 1",
+                       construct="to_prolog: atoms defined from evidence() keys", function="LogicFormula.to_prolog")
+            continue
+        else:
+            continue
+        seen_kinds.add(kind)
+        qn, qi = names[0], names[1]
+        qv = names[2] if kind == "evidence" else None
+        paths = dtable.extract_block(lp.body, opaque_loops=True)
+        for t_, f_ in ((True, False), (False, True), (False, False)):
+            for ng in (False, True):
+                for v in ((1, -1) if kind == "evidence" else (None,)):
+                    mapping = [("is_ground(%s)" % qn, True), ("self.is_true(%s)" % qi, t_), ("self.is_false(%s)" % qi, f_), ("%s.is_negated()" % qn, ng)]
+                    if v is not None:
+                        mapping.append((qv, v))
+                    ps = dtable.feasible(paths, mapping)
+                    if len(ps) != 1:
+                        raise AnalysisError("to_prolog: %d paths of the %s loop for one scenario" % (len(ps), kind))
+                    texts = []
+                    for fn, a, _ in ps[0].calls:
+                        if fn != "lines.append" or not a:
+                            continue
+                        tx = fold_text(ast.parse(a[0], mode="eval").body, {"-%s" % qn: "\x00NEG\x00", "abs(%s)" % qn: "\x00ABS\x00", qn: "\x00Q\x00"})
+                        if tx is None:
+                            raise AnalysisError("to_prolog: emitted line not foldable: %s" % a[0][:60])
+                        texts.append(tx)
+                    defs = [x for x in texts if not x.startswith("query(") and not x.startswith("evidence(")]
+                    marks = [x for x in texts if x.startswith("query(") or x.startswith("evidence(")]
+                    n += 1
+                    what = "%s %s with node %s" % (kind, "\\+a" if ng else "a", "TRUE" if t_ else "FALSE" if f_ else "probabilistic") + ("" if v is None else ", observed %s" % ("true" if v > 0 else "false"))
+                    ok = True
+                    why = ""
+                    if t_ or f_:
+                        pos = {"\x00ABS\x00"} | ({"\x00NEG\x00"} if ng else {"\x00Q\x00"})
+                        fact = t_ != ng
+                        want = {("%s." if fact else "%s :- fail.") % a_ for a_ in pos}
+                        ok = len(defs) == 1 and defs[0] in want
+                        why = "the positive atom must be written %s; found %s" % ("as a fact" if fact else "as `atom :- fail.`", [d.replace("\x00Q\x00", "<name>").replace("\x00NEG\x00", "<-name>").replace("\x00ABS\x00", "<abs(name)>") for d in defs])
+                    else:
+                        ok = not defs
+                        why = "a probabilistic node needs no definition; found %s" % defs
+                    if ok and kind == "evidence":
+                        wantm = "evidence(\x00Q\x00)." if v > 0 else "evidence(\\+\x00Q\x00)."
+                        ok = marks == [wantm]
+                        why = "the evidence line must carry the observed polarity; found %s" % [x.replace("\x00Q\x00", "<name>") for x in marks]
+                    if ok and kind == "query":
+                        ok = marks == ["query(\x00Q\x00)."]
+                        why = "the query line must name the query; found %s" % marks
+                    col.decide("U7", m, lp, ok, "to_prolog, %s" % what, "to_prolog, %s: %s - the exported program then gives this atom another truth value than the original" % (what, why),
+                               construct="to_prolog: %s" % what, function="LogicFormula.to_prolog")
+    if seen_kinds != {"query", "evidence"}:
+        raise AnalysisError("to_prolog: query / evidence loops not found (%s)" % sorted(seen_kinds))
+    col.floor("U7.scenarios", n, 7)
+
+
 def run(repo, col):
     col.rule("U1", "DIMACS writer: every internal clause emitted exactly once, no weight column, header counts")
     col.rule("U2", "to_dimacs text format")
@@ -386,3 +464,5 @@ def run(repo, col):
     rule_u5(repo, col)
     col.rule("U6", "enum_clauses: which disjuncts are written")
     rule_u6(repo, col)
+    col.rule("U7", "to_prolog: deterministic query / evidence atoms keep their truth value")
+    rule_u7(repo, col)
